@@ -7,8 +7,8 @@
   on the output/input.  Here the *reading* half is `readOpt`, which returns an
   `Opt` describing what is to be done (alignment wanted, whether the option was
   preceded by `X`, and the body), plus the new reader state.  The three Go
-  loops differ in how they treat `X`, `x`, ` ` and `z` while the "align only"
-  flag is set; `Mode` selects which loop is mirrored.
+  loops read the format alike (`X` is checked by the shared `alignNext()`),
+  except that packsize rejects `s` and `z`; `Mode` selects the loop.
 
   Native endianness is little endian, `defaultMaxAlignement = 1`, native sizes:
   short 2, int (the default of `i`/`I`) 8, long 8, size_t 8 — the values
@@ -37,6 +37,7 @@ inductive Err where
   | strDoesNotFit
   | variableLength    -- packsize only
   | sizeOverflow      -- invalid format: option size overflow
+  | resultTooLarge    -- format result too large (packsize)
   | strZeros
   | badOption         -- invalid format option %q
   | notEnoughValues
@@ -50,7 +51,7 @@ def Err.name : Err → String
   | .outOfBounds => "overflow" | .expectedOption => "expectedoption" | .badAlignment => "badalign"
   | .short => "short" | .doesNotFit => "doesnotfit" | .strLonger => "strlonger"
   | .strDoesNotFit => "strdoesnotfit" | .variableLength => "variablelength"
-  | .sizeOverflow => "sizeoverflow" | .strZeros => "strzeros" | .badOption => "badoption"
+  | .sizeOverflow => "sizeoverflow" | .resultTooLarge => "toolarge" | .strZeros => "strzeros" | .badOption => "badoption"
   | .notEnoughValues => "notenough" | .badInit => "badinit" | .goPanic => "panic" | .unmodelled => "unmodelled"
 
 /-- which of the three Go loops is mirrored -/
@@ -148,6 +149,12 @@ def optKind (c : UInt8) : Kind :=
   else if ch = ' ' then .space
   else .bad
 
+/-- options that have a size (`bBhHlLjJTiIfdnsx`): the only ones that may follow `X` -/
+def alignable (c : UInt8) : Bool :=
+  match optKind c with
+  | .fixedInt _ _ _ | .varInt _ | .f32 | .f64 | .lstr | .pad => true
+  | _ => false
+
 /-- an aligned option: the flag is consumed by `align()` -/
 @[inline] def mkItem (rd : Rd) (align : Nat) (b : Body) (rest : Bytes) : Except Err (Opt × Rd × Bytes) :=
   .ok (.item align rd.alignOnly b, { rd with alignOnly := false }, rest)
@@ -178,8 +185,7 @@ def readOpt (mode : Mode) (rd : Rd) (c : UInt8) (rest : Bytes) : Except Err (Opt
   | .zstr =>
     match mode with
     | .size => .error .variableLength
-    | .unpack => if rd.alignOnly then .error .expectedOption else mkItem rd 0 .zstr rest
-    | .pack => mkItem rd 0 .zstr rest
+    | _ => mkItem rd 0 .zstr rest
   | .lstr =>
     match mode with
     | .size => .error .variableLength
@@ -187,25 +193,14 @@ def readOpt (mode : Mode) (rd : Rd) (c : UInt8) (rest : Bytes) : Except Err (Opt
       match smallOptSize rest 8 with
       | .error e => .error e
       | .ok (n, rest') => mkItem rd n (.lstr n) rest'
-  | .pad =>
-    match mode with
-    | .unpack => .ok (.item 0 false .padByte, rd, rest)      -- `skip(1)`: no `align(0)`, flag untouched
-    | _ => mkItem rd 0 .padByte rest
+  | .pad => mkItem rd 0 .padByte rest
   | .alignNext =>
-    match mode with
-    | .unpack => if rd.alignOnly then .error .expectedOption else .ok (.nop, { rd with alignOnly := true }, rest)
-    | _ => .ok (.nop, { rd with alignOnly := true }, rest)
-  | .space =>
-    match mode with
-    | .unpack => if rd.alignOnly then .error .expectedOption else .ok (.nop, rd, rest)
-    | _ => .ok (.nop, rd, rest)
+    -- `alignNext()`: the option after `X` must exist and have a size
+    match rest with
+    | d :: _ => if alignable d then .ok (.nop, { rd with alignOnly := true }, rest) else .error .expectedOption
+    | [] => .error .expectedOption
+  | .space => .ok (.nop, rd, rest)
   | .bad => .error .badOption
-
-/-- options that `align()` with a size: after `X` the three loops treat them alike -/
-def alignable (c : UInt8) : Bool :=
-  match optKind c with
-  | .fixedInt _ _ _ | .varInt _ | .f32 | .f64 | .lstr => true
-  | _ => false
 
 /-- `(n-1)&n == 0` -/
 def isPow2 (n : Nat) : Bool := (n - 1) &&& n == 0
